@@ -280,3 +280,38 @@ func ZZH4cReentrant() {
 	sym.Assert(SameInts(d.Out, g.Dig), "re-entrant-interceptor-obtains-the-default-tree")
 	sym.Cover("end")
 }
+
+// ZZH4eRepeatedBuilds: the interceptors of one builder run in installation
+// order in every parser it builds (not only the first).
+func ZZH4eRepeatedBuilds() {
+	_, s := GenProgram()
+	sym.Observe("script", s.Types())
+	var slog, elog []icLog
+	ns := 2 + sym.Choose("nstmt", 2)
+	ne := 2 + sym.Choose("nexpr", 2)
+	pb := parser.NewBuilder(s.LexerBuilder())
+	for i := 0; i < ns; i++ {
+		pb.UseStatementInterceptor(passStmt(&slog, i))
+	}
+	for i := 0; i < ne; i++ {
+		pb.UseExpressionInterceptor(passExpr(&elog, i))
+	}
+	builds := sym.Param("builds", 3)
+	var first []int
+	for b := 0; b < builds; b++ {
+		slog, elog = nil, nil
+		s.Rewind()
+		p := pb.Build("")
+		prog, err := p.ParseProgram()
+		sym.Assert(err == nil, "valid-program-accepted")
+		d := DigestOf(prog, false)
+		if b == 0 {
+			first = d.Out
+		} else {
+			sym.Assert(SameInts(first, d.Out), "every-build-gives-the-same-tree")
+		}
+		checkGroups(slog, ns, "statement-interceptors-run-once-per-step-in-installation-order")
+		checkGroups(elog, ne, "expression-interceptors-run-once-per-step-in-installation-order")
+	}
+	sym.Cover("end")
+}
